@@ -268,6 +268,11 @@ def run(ctx):
     ctx.alias = {"C10.e": "C07.b"}
     ctx.run_clause("C07.b", C10.c10e)
     ctx.alias = {}
+    # what reaches the store is what the batch coalesced: last operation per key / element, both write families
+    from . import C09
+    ctx.alias = {"C09.g": "C07.f"}
+    ctx.run_clause("C07.f", C09.c09g_batch)
+    ctx.alias = {}
     ctx.run_clause("C07.c", c07c)
     ctx.run_clause("C07.d", c07d)
     ctx.run_clause("C07.e", c07e)
